@@ -485,7 +485,85 @@ META["C11"] = {"files": ["ciffile.c", "parser.c"], "functions": ["cif_parse", "c
                "assumptions": ["ICU's signature detection follows its documentation"],
                "outside": ["'the same text in any signed encoding yields the same content' (ICU converters)", "the system default encoding"]}
 
-REG = {"C04": c04, "C11": c11, "C16": c16, "C05": c05, "C06": c06, "C17": c17, "C20": c20, "C10": c10, "C18": c18, "C09": c09, "C08": c08, "C14": c14, "C19": c19, "C07": c07}
+
+# ------------------------------------------------------------------------------------------ C01 / C03 / C12 (lexical layer)
+PARSER_SEAMS = [("parser.c", "__CPROVER_file_local_parser_c_parse_cif"), ("parser.c", "__CPROVER_file_local_parser_c_get_first_char"),
+                ("parser.c", "__CPROVER_file_local_parser_c_get_more_chars")]
+
+
+def tok_queries(tier, mode="func"):
+    """Whole next_token (all scan functions inlined): ~4 min / 5 GB per instance at 3 symbolic units, so few instances."""
+    qs = []
+    L = 3
+    if tier == "quick":
+        insts = [(3, None, 2, 1, 0), (3, None, 2, 0, 0)]
+    else:
+        insts = [(3, None, v, p, r) for v in (2, 1) for p in (1, 0) for r in (0, 1)] + [(4, None, 2, 1, 0)]
+        pres = {"data": "{'d','A','t','a','_'}", "save": "{'S','a','v','e','_'}", "loop": "{'l','o','O','p','_'}", "stop": "{'s','t','o','P','_'}",
+                "glob": "{'g','L','o','b','a','l','_'}", "tri": "{0x27,0x27,0x27}", "text": "{';'}", "quo": "{0x22}"}
+        for nm, pre in pres.items():
+            insts.append((pre.count(",") + 1 + 2, (nm, pre), 2, 1, 0))
+    for (k, pre, v, pok, rej) in insts:
+        d = {"KLEN": k, "CIFV": v, "PREVOK": pok, "REJECT": rej, "CIF_API_VERIF_BUF_SIZE_INITIAL": 16, "CIF_API_VERIF_BUF_MIN_FILL": 1, "CIF_API_VERIF_LINE_LENGTH": L}
+        if pre:
+            d["PREFIX"] = pre[1]
+        qs.append(Q("tok_K%d_v%d%s_p%d_r%d_%s" % (k, v, "_" + pre[0] if pre else "", pok, rej, mode), "h01_tok.c", defs=d, extra=ICU, libtus=["parser.c"], remove=PARSER_SEAMS,
+                    unwind=k + 3, unwindset=["cif_parse_internal.*:170", "harness.*:%d" % (k + 2), "ref_kw.*:9"], mode=mode, replay=False, timeout=600 if tier == "quick" else 3000,
+                    mem_gb=9 if tier == "quick" else 16,
+                    bounds={"buffer": "%d code units%s, full 16-bit alphabet" % (k, (", first %d fixed to %s" % (pre[1].count(",") + 1, pre[0])) if pre else ""), "dialect": "CIF %s" % ("2.0" if v == 2 else "1.1"),
+                            "previous token": "whitespace %srequired before the next token" % ("not " if pok else ""), "error callback": ["accepts all", "rejects the 1st error", "rejects the 2nd error"][rej], "CIF_LINE_LENGTH": L},
+                    note="real next_token + all scan_* vs reference tokenizer (one token)"))
+    return qs
+
+
+SCAN_NAMES = {1: "scan_ws", 2: "scan_to_eol", 3: "scan_to_ws", 4: "scan_unquoted", 5: "scan_delim_string", 6: "scan_text"}
+
+
+def scan_queries(tier, mode="func"):
+    qs = []
+    L = 3
+    for fn in range(1, 7):
+        for v in (2, 1):
+            k = (5 if fn in (4, 5, 6) else 5) if tier == "quick" else (7 if fn in (4, 5, 6) else 6)
+            d = {"KLEN": k, "CIFV": v, "SCANFN": fn, "CIF_API_VERIF_BUF_SIZE_INITIAL": 16, "CIF_API_VERIF_BUF_MIN_FILL": 1, "CIF_API_VERIF_LINE_LENGTH": L}
+            qs.append(Q("scan_%s_K%d_v%d_%s" % (SCAN_NAMES[fn], k, v, mode), "h01_scan.c", defs=d, extra=ICU, libtus=["parser.c"], remove=PARSER_SEAMS,
+                        unwind=k + 3, unwindset=["cif_parse_internal.*:170", "harness.*:%d" % (k + 2), "ref_kw.*:9"], mode=mode, replay=False,
+                        timeout=900 if tier != "quick" else None, mem_gb=8,
+                        bounds={"function": SCAN_NAMES[fn], "buffer": "%d code units, full 16-bit alphabet" % k, "dialect": "CIF %s" % ("2.0" if v == 2 else "1.1"),
+                                "error callback": "accept all / reject 1st / reject 2nd (symbolic)", "CIF_LINE_LENGTH": L},
+                        note="real scan function vs unit reference"))
+    return qs
+
+
+def c01(tier):
+    qs = scan_queries(tier) + tok_queries(tier)
+    for q in qs:
+        q.name = "C01_" + q.name
+    return qs
+
+
+def c12(tier):
+    qs = scan_queries(tier) + tok_queries(tier)
+    for q in qs:
+        q.name = "C12_" + q.name
+    return qs
+
+
+def c03(tier):
+    # the same units under CBMC's memory-safety / UB checks (arbitrary code units incl. controls and surrogates, callback
+    # accepting or rejecting) + the functional contract of the result code and callback arguments + the fill step of C08
+    qs = scan_queries(tier, mode="safety") + [q for q in tok_queries(tier) if "_p1_" in q.name][:1] + [q for q in c08(tier) if q.mode == "safety"]
+    for q in qs:
+        q.name = "C03_" + q.name
+    return qs
+
+
+META["C01"] = {"files": ["parser.c"], "functions": ["next_token", "scan_ws", "scan_to_ws", "scan_to_eol", "scan_unquoted", "scan_delim_string", "scan_triple_delim_string", "scan_text", "cif_parse_internal (table set-up)"],
+               "stubs": ["get_first_char / get_more_chars = contract for an exhausted source (C08)", "parse_cif = harness body", "stubs/icu_str.c"],
+               "assumptions": ["one token per query; composition over a document is by the token / production contracts (argued)", "CIF_LINE_LENGTH shrunk by hook"],
+               "outside": ["byte -> UChar decoding", "tokens longer than the bound", "characters the reference tokenizer leaves unspecified get generic assertions only"]}
+
+REG = {"C01": c01, "C03": c03, "C12": c12, "C04": c04, "C11": c11, "C16": c16, "C05": c05, "C06": c06, "C17": c17, "C20": c20, "C10": c10, "C18": c18, "C09": c09, "C08": c08, "C14": c14, "C19": c19, "C07": c07}
 
 
 def for_property(pid, tier):
@@ -608,3 +686,28 @@ MANI["C11"] = {
     "note": "ICU converter API and signature detection are stubs (documented signature table); the grammar after start-up is a recorder; "
             "'same text in any signed encoding yields the same content' is ICU's and not decided; U+FEFF after the first character "
             "is covered by the scanner queries of C12 where listed"}
+
+MANI["C01"] = {
+    "text": "Bounded model checking of the lexical layer of the parser against a reference tokenizer written from the CIF 2.0 / 1.1 grammar: "
+            "each real scan function (scan_ws, scan_to_eol, scan_to_ws, scan_unquoted, scan_delim_string incl. triple quotes, scan_text) for ALL "
+            "buffers of 5 (thorough 6-7) 16-bit units in both dialects, and the real next_token with all of them inlined for ALL buffers of 3 "
+            "(thorough 4, plus reserved-word / delimiter prefixes) - token type, value extent, consumption, line count, no error on "
+            "well-formed input; production-level queries where listed in evidence.",
+    "note": "one token per query: a whole document is covered only through the composition of token and production contracts (argued, not "
+            "mechanised); buffer filling is replaced by its contract (C08); byte decoding (ICU), decode_text's prefix/fold protocol and "
+            "the storage of parsed content are outside unless a query for them is listed"}
+MANI["C12"] = {
+    "text": "Lexical defect classes decided on the real scanner units against the reference tokenizer, for all buffers within the bound: "
+            "missing end-quote, unterminated text field / triple-quoted string, missing whitespace, reserved words data_/stop_/global_, "
+            "over-length line (limit shrunk by hook so both sides of the boundary are covered; terminator not counted) - exact error-code "
+            "sequence under an accepting callback, documented recovery (token extent / dropped word), none on well-formed input, first code "
+            "returned under a rejecting callback; grammatical classes where production queries are listed.",
+    "note": "grammatical defect classes (missing value, duplicate names, frame errors, table keys ...) are decided only if production "
+            "queries are listed in evidence; duplicate detection itself is SQL; CIF_LINE_LENGTH = 3 via hook"}
+MANI["C03"] = {
+    "text": "The scanner units and next_token under CBMC's memory-safety and UB checks for ARBITRARY code units (controls, unpaired and "
+            "paired surrogates, non-characters) with an error callback that accepts or rejects symbolically: no out-of-bounds access, result "
+            "= 0 or exactly the rejected code, never a negative code, callback line >= 1 and text NULL-or-readable; plus the scan-buffer "
+            "fill step from an arbitrary state (C08).",
+    "note": "per-unit: termination and totality of a whole parse follow from the units only by the composition argument; byte decoding "
+            "/ malformed UTF-8 (ICU), parse options plumbing beyond C11, and the consistency of the target CIF afterwards beyond C05 are outside"}
